@@ -10,7 +10,9 @@ RULE = ("random fully bifurcating trees (2-9 leaves quick, up to 14 thorough; ra
         "leaf set) x histories of 1-5 scoring calls on one tree object and its clones (Tree.clone(1), Tree(tree)), each call with its own "
         "matrix (DNA/RNA with IUPAC ambiguity codes, protein with B/Z/X, 10-state standard; '?', '-', lower case and synonyms; 1-6 characters), "
         "gaps_as_missing both ways, weights None or 0..3 per character, entry point parsimony_score / treescore.parsimony_score / "
-        "fitch_down_pass with and without node attributes; re-rooted (every sequence of root slides) and child-shuffled copies; a malformed "
+        "fitch_down_pass with and without node attributes; matrix objects that live across calls and are edited in place between them "
+        "(single cells via seq[i]=/set_at, whole sequences of equal length) and re-scored on the same, cloned and fresh tree objects in both "
+        "gap modes, judged on their current content; re-rooted (every sequence of root slides) and child-shuffled copies; a malformed "
         "stream (polytomies, unary nodes, leaves whose taxon has no row) for the correspondence only. Thorough adds every ordered binary shape "
         "<= 6 leaves x every 2-state column (4 characters per matrix, all matrices scored in sequence on one tree object) x every root position. "
         "Non-trivial = at least two scoring calls on one tree object (or its clones), or a re-rooted/shuffled copy")
@@ -303,11 +305,25 @@ def exc_name(e):
     return "Internal(%s)" % type(e).__name__
 
 
-def impl_call(dendropy, tree, tns, call):
-    """one scoring call on the real code -> canonical text"""
+def apply_edit(dendropy, tns, m, op):
+    """edit a matrix object IN PLACE (dimensions unchanged)"""
+    taxon = tns[op["bit"]]
+    if op["how"] == "seq":
+        m[taxon] = m.coerce_values(op["syms"])           # whole sequence replaced by one of equal length
+    else:
+        state = m.default_state_alphabet[op["sym"]]
+        if op["how"] == "set_at":
+            m[taxon].set_at(op["idx"], state)
+        else:
+            m[taxon][op["idx"]] = state
+
+
+def impl_call(dendropy, tree, tns, call, m=None):
+    """one scoring call on the real code -> canonical text (m: an existing matrix object to score, else built from call)"""
     from dendropy.model import parsimony
     from dendropy.calculate import treescore
-    m = build_matrix(dendropy, tns, call)
+    if m is None:
+        m = build_matrix(dendropy, tns, call)
     ws = call["weights"]
     by = []
     try:
@@ -333,6 +349,8 @@ def fmt_expected(ex):
 def op_line(op):
     if op["op"] == "C":
         return "C %d" % op["obj"]
+    if op["op"] == "E":
+        return "E %s %s %s %s %s" % (op["mat"], op["how"], op["bit"], op.get("idx", "-"), op.get("sym", op.get("syms")))
     w = "-" if op["weights"] is None else ",".join(str(x) for x in op["weights"])
     rows = " ".join("%d =%s" % (bit, syms) for bit, syms in op["rows"])
     return "S %d %s %d %s %s" % (op["obj"], op["alph"], 1 if op["gaps"] else 0, w, rows)
@@ -354,29 +372,58 @@ def run_case(ctx, dendropy, case, pending):
         raise RuntimeError("harness: derived tree is not the same unrooted tree as its base")
     bits = [x for x in toks_struct(toks)[2].values() if x is not None]
     for op in case["ops"]:
-        if op["op"] == "S":
+        if op["op"] == "S" and op.get("rows"):
             bits += [b for b, _ in op["rows"]]
     tns = dendropy.TaxonNamespace(["t%d" % i for i in range(max(bits) + 1 if bits else 1)])
     tree, _ids = tu.tree_from_tokens(dendropy, toks, tns=tns)
     objs = [tree]
     calls_on = [0]          # scoring calls already made on each object (clones inherit)
+    mats = {}               # matrix objects that live across calls: key -> {"m": object, "alph", "rows" (current content), "scored", "edited"}
     results = []
+    resolved = []           # the ops as the model sees them: every scoring call with the CURRENT content of its matrix
     nscore = 0
+    nedit = 0
     sets_lines = []
     for k, op in enumerate(case["ops"]):
         if op["op"] == "C":
             src = objs[op["obj"]]
-            objs.append(src.clone(1) if op.get("how", "clone") == "clone" else dendropy.Tree(src))
-            calls_on.append(calls_on[op["obj"]])
+            how = op.get("how", "clone")
+            if how == "fresh":
+                objs.append(tu.tree_from_tokens(dendropy, toks, tns=tns)[0])     # another tree object, never scored
+                calls_on.append(0)
+            else:
+                objs.append(src.clone(1) if how == "clone" else dendropy.Tree(src))
+                calls_on.append(calls_on[op["obj"]])
             results.append("c")
+            resolved.append(op)
+            continue
+        if op["op"] == "E":
+            ent = mats[op["mat"]]
+            apply_edit(dendropy, tns, ent["m"], op)
+            for row in ent["rows"]:
+                if row[0] == op["bit"]:
+                    if op["how"] == "seq":
+                        row[1] = op["syms"]
+                    else:
+                        row[1] = row[1][:op["idx"]] + op["sym"] + row[1][op["idx"] + 1:]
+            ent["edited"] += 1
+            nedit += 1
             continue
         nscore += 1
         obj = objs[op["obj"]]
+        ent = None
+        if op.get("mat") is not None:
+            if op.get("rows"):
+                mats[op["mat"]] = {"m": build_matrix(dendropy, tns, op), "alph": op["alph"],
+                                   "rows": [list(r) for r in op["rows"]], "scored": 0, "edited": 0}
+            ent = mats[op["mat"]]
+            op = dict(op, alph=ent["alph"], rows=[list(r) for r in ent["rows"]])
+        resolved.append(op)
         with time_limit(30):
-            got, m = impl_call(dendropy, obj, tns, op)
+            got, m = impl_call(dendropy, obj, tns, op, ent["m"] if ent else None)
         results.append(got)
         ctx.count("result " + got.split()[0])
-        # --- oracle: the statement evaluated on this call
+        # --- oracle: the statement evaluated on this call, on the CURRENT content of the matrix passed in
         ex = expected(nd, op)
         if base is not None:
             exb = expected(base, op)
@@ -388,13 +435,26 @@ def run_case(ctx, dendropy, case, pending):
                 kind = "minimal"
                 what = "call %d (%s, gaps_as_missing=%s, weights=%s) returned [%s]; the minimum number of changes gives [%s]" % (
                     k, op["alph"], op["gaps"], op["weights"], got, want)
-                if calls_on[op["obj"]] > 0:
+                decided = False
+                if ent is not None and ent["scored"] > 0:
+                    # same tree object state is not reproducible; a freshly built identical matrix on a fresh copy of the tree
+                    ftree, _ = tu.tree_from_tokens(dendropy, toks, tns=tns)
+                    fresh, _ = impl_call(dendropy, ftree, tns, op)
+                    f2tree, _ = tu.tree_from_tokens(dendropy, toks, tns=tns)
+                    same_obj, _ = impl_call(dendropy, f2tree, tns, op, ent["m"])
+                    if fresh != same_obj:
+                        kind = "matrix_history"
+                        decided = True
+                        what += ("; the matrix object was scored %d time(s) before and edited in place %d time(s); on a fresh copy of the "
+                                 "tree it scores [%s], a freshly built matrix with identical content scores [%s]" % (
+                                     ent["scored"], ent["edited"], same_obj, fresh))
+                if not decided and calls_on[op["obj"]] > 0:
                     ftree, _ = tu.tree_from_tokens(dendropy, toks, tns=tns)
                     fresh, _ = impl_call(dendropy, ftree, tns, op)
                     if fresh != got:
                         kind = "history"
                         what += "; a fresh copy of the same tree scores [%s] with the same matrix" % fresh
-                elif base is not None:
+                elif not decided and base is not None:
                     btree, _ = tu.tree_from_tokens(dendropy, case["base"], tns=tns)
                     bgot, _ = impl_call(dendropy, btree, tns, op)
                     if bgot != got:
@@ -408,16 +468,21 @@ def run_case(ctx, dendropy, case, pending):
                         what += "; the per-character scores add up to %d, the total is %s" % (sum(by), parts[1])
                 ctx.fail(kind, what, dict(case, failed_call=k))
         calls_on[op["obj"]] += 1
-        # --- the state sets the matrix hands to the down pass (correspondence of the alphabet tables + rules)
-        if op["alph"] in ALPH_CLASS and len(sets_lines) < 3:
+        if ent is not None:
+            ent["scored"] += 1
+        # --- the state sets the matrix hands to the down pass (correspondence of the alphabet tables + rules; for a
+        #     long-lived matrix object: of its current content)
+        if op["alph"] in ALPH_CLASS and (len(sets_lines) < 3 or (ent is not None and ent["edited"] and len(sets_lines) < 8)):
             tsm = m.taxon_state_sets_map(gaps_as_missing=op["gaps"])
-            bit, syms = op["rows"][0]
+            bit, syms = op["rows"][nscore % len(op["rows"])]
             sets_lines.append(("sets %s %d =%s" % (op["alph"], 1 if op["gaps"] else 0, syms),
                                " ".join(str(mask_of(s)) for s in tsm[tns[bit]]) or "-"))
     nontrivial = nscore >= 2 or base is not None
-    ctx.case([toks, [op_line(o) + o.get("via", "") for o in case["ops"]]], nontrivial, sample=case,
-             kind=_kind(case.get("how")) or ("history" if nscore >= 2 else "single"))
-    line = "hist %s | %s" % (" ".join(toks), " | ".join(op_line(o) for o in case["ops"]))
+    ctx.case([toks, case["ops"]], nontrivial, sample=case,
+             kind=_kind(case.get("how")) or ("matrix edited in place" if nedit else ("history" if nscore >= 2 else "single")))
+    if nedit:
+        ctx.count("in-place matrix edits", nedit)
+    line = "hist %s | %s" % (" ".join(toks), " | ".join(op_line(o) for o in resolved))
     pending.append((line, case, " | ".join(results), "hist"))
     for l, want in sets_lines:
         pending.append((l, case, want, "sets"))
@@ -514,6 +579,46 @@ def gen_history(dendropy, rng, max_leaves):
         # the same matrix again, later, on an object that has seen others
         first = [o for o in ops if o["op"] == "S"][0]
         ops.append(dict(first, obj=rng.randrange(nobj)))
+    return {"tree": toks, "base": None, "how": None, "ops": ops}
+
+
+def gen_matrix_history(dendropy, rng, max_leaves):
+    """matrix objects that live across scoring calls and are edited IN PLACE between them (single cells, whole sequences of equal
+    length), scored again on the same / a cloned / a fresh tree object, in both gap modes"""
+    n = rng.randint(2, max_leaves)
+    toks, bits, spare = gen_tree(dendropy, rng, n, triroot=rng.random() < 0.1)
+    ops = []
+    nobj = 1
+    content = {}
+    nmat = rng.choice([1, 1, 2])
+    for k in range(nmat):
+        call = gen_call(rng, bits, 0, spare if rng.random() < 0.2 else ())
+        call["mat"] = k
+        content[k] = {"alph": call["alph"], "rows": {b: sy for b, sy in call["rows"]}, "nchar": len(call["rows"][0][1])}
+        ops.append(call)
+    for _ in range(rng.randint(1, 5)):
+        k = rng.randrange(nmat)
+        c = content[k]
+        fund, tab = ORACLE_ALPHABETS[c["alph"]]
+        pool = list(fund) + ["-", "?"] + [x for x in tab if len(tab[x]) > 1][:6]
+        for _ in range(rng.choice([0, 1, 1, 1, 2, 3])):
+            bit = rng.choice(sorted(c["rows"]))
+            if rng.random() < 0.3:
+                syms = "".join(rng.choice(pool) for _ in range(c["nchar"]))
+                ops.append({"op": "E", "mat": k, "how": "seq", "bit": bit, "syms": syms})
+                c["rows"][bit] = syms
+            else:
+                idx = rng.randrange(c["nchar"])
+                old = c["rows"][bit][idx]
+                sym = rng.choice([x for x in pool if x != old] or pool)
+                ops.append({"op": "E", "mat": k, "how": rng.choice(["cell", "cell", "set_at"]), "bit": bit, "idx": idx, "sym": sym})
+                c["rows"][bit] = c["rows"][bit][:idx] + sym + c["rows"][bit][idx + 1:]
+        if rng.random() < 0.35:
+            ops.append({"op": "C", "obj": rng.randrange(nobj), "how": rng.choice(["clone", "ctor", "fresh", "fresh"])})
+            nobj += 1
+        ops.append({"op": "S", "obj": rng.randrange(nobj), "mat": k, "gaps": rng.random() < 0.5,
+                    "weights": None if rng.random() < 0.5 else [rng.choice([0, 1, 1, 2, 3]) for _ in range(c["nchar"])],
+                    "via": rng.choice(["parsimony", "parsimony", "parsimony", "treescore", "down", "down_noattr"])})
     return {"tree": toks, "base": None, "how": None, "ops": ops}
 
 
@@ -634,7 +739,9 @@ def run(ctx):
             break
         r = rng.random()
         ml = max_leaves if rng.random() < 0.5 else 6
-        if r < 0.55:
+        if r < 0.2:
+            run_case(ctx, dendropy, gen_matrix_history(dendropy, rng, ml), pending)
+        elif r < 0.55:
             run_case(ctx, dendropy, gen_history(dendropy, rng, ml), pending)
         elif r < 0.85:
             case, (toks, how, d) = gen_equiv(dendropy, rng, ml)
@@ -672,6 +779,16 @@ def exhaustive(ctx, dendropy, pending):
                 ops.append({"op": "S", "obj": 0, "alph": "standard", "gaps": True, "weights": None, "rows": rows, "via": "parsimony"})
                 ncol += len(grp)
             run_case(ctx, dendropy, {"tree": toks, "base": None, "how": None, "ops": ops}, pending)
+            # one matrix OBJECT per shape walked through all two-state columns by single-cell in-place edits (Gray code), scored after each
+            cur = ["0"] * n
+            gops = [{"op": "S", "obj": 0, "mat": 0, "alph": "standard", "gaps": True, "weights": None, "via": "parsimony",
+                     "rows": [[b, "0"] for b in bits]}]
+            for v in range(1, 2 ** n):
+                flip = (v & -v).bit_length() - 1
+                cur[flip] = "1" if cur[flip] == "0" else "0"
+                gops.append({"op": "E", "mat": 0, "how": "cell", "bit": flip, "idx": 0, "sym": cur[flip]})
+                gops.append({"op": "S", "obj": 0, "mat": 0, "gaps": bool(v & 2), "weights": None, "via": "parsimony"})
+            run_case(ctx, dendropy, {"tree": toks, "base": None, "how": None, "ops": gops}, pending)
             nshape += 1
             nd = nested(toks)
             call = gen_call(rng, bits, 0)
@@ -686,6 +803,7 @@ def exhaustive(ctx, dendropy, pending):
                 flush(ctx, pending)
     flush(ctx, pending)
     ctx.extra["exhaustive_small_scope"] = ("%d ordered binary shapes <= 6 leaves, all %d two-state columns (4 per matrix, one tree object per shape), "
+                                           "one matrix object per shape edited in place through all two-state columns (Gray code) and re-scored after every edit, "
                                            "%d re-rooted copies (every root position)%s" % (nshape, ncol, nroot, "" if done else " -- cut short by the time budget"))
 
 
